@@ -63,6 +63,14 @@ CLAIMED['C08'] = dict(
          'writer executed as is.',
     design='5/C08')
 
+CLAIMED['C10'] = dict(
+    text='Both roles: configured maximum A in [7, 2^32) and peer-announced maximum P in {0} u [7, 2^32) are symbolic '
+         'integers (no grid); the real accept / _request negotiation code is followed by the real send -> encode -> '
+         'fragment path with length-only data; asserted: announced value in 1..A, every P-DATA-TF <= P unless P = 0, and '
+         'both streams of a message of up to K fragments are delivered completely (ability to send).',
+    note=TRUSTED + 'LenSeq stand-ins; A < 7 and P in 1..6 are outside the documented domain; K = 3 / 6 fragments.',
+    design='5/C10')
+
 NOT_YET = 'check not built yet in this revision (see DESIGN.md section 5 for the plan)'
 
 NOT_APPLICABLE = {}
